@@ -27,9 +27,13 @@ func TestMain(m *testing.M) {
 			"every returned report is delivered once, flagged PERIO, to its SEID; after the last URR of p is deleted the server has no group p; after Close() the wait group (server + every ticker goroutine) completes. "+
 			"(b) batching: query maps of 0-400 URRs over 1-60 sessions through the real Gtp5g.psQueryURR on the simulated kernel, sizes around the batch limit; oracle: union of OIDs over the GET_MULTI_REPORTS requests equals the input, no OID twice, "+
 			"each request carries at most gtp5gnl.MaxNetlinkUsageReportNum() OIDs and a URR_NUM equal to its own count, results keyed by the right SEID. "+
-			"non-trivial = a tick processed after an Add/Del interleaving of >= 4 events, a stale queued tick, or a map crossing a batch boundary; distinct by history / map shape",
+			"(c) real tickers: wall-clock schedules (1-5 URRs over periods of 1 and 2 s, registrations, removals and re-registrations at drawn offsets up to 4.5 s), every event followed by a barrier so that each query is placed exactly between two membership events by the order of the server's callbacks; "+
+			"oracle: each query names URRs of one period only and equals that period's registered set at that point; the k-th query of a ticker comes no earlier than k periods after its registration was posted; every queried report delivered once, flagged PERIO; "+
+			"not more than 1 s late and not missing for a group that lived a period + 1 s (these two only when a second run of the same schedule fails the same way). "+
+			"non-trivial = a tick processed after an Add/Del interleaving of >= 4 events, a stale queued tick, a map crossing a batch boundary, or a real-ticker schedule with >= 2 queries; distinct by history / map shape",
 		"each URR is registered at most once at a time (the quantifier says so)",
-		"ticks are injected by an in-package hook; the sentinel registration used as barrier is filtered out of the observations")
+		"ticks are injected by an in-package hook in (a); the sentinel registration used as barrier is filtered out of the observations",
+		"(c) uses the wall clock: lower time bounds are exact, upper bounds carry 1 s of slack and need confirmation by a second run")
 	vcore.Main(m)
 }
 
@@ -602,6 +606,7 @@ func TestC15(t *testing.T) {
 		var w struct {
 			A *CaseA `json:"a"`
 			B *CaseB `json:"b"`
+			C *CaseC `json:"c"`
 		}
 		if err := vcore.LoadReplayCase(f, &w); err != nil {
 			t.Fatalf("replay %s: %v", f, err)
@@ -617,6 +622,11 @@ func TestC15(t *testing.T) {
 			accountB(*w.B, cr)
 			vcore.Report(t, v, map[string]any{"b": w.B})
 		}
+		if w.C != nil {
+			v, s := checkC(*w.C)
+			accountC(*w.C, s)
+			vcore.Report(t, v, map[string]any{"c": w.C})
+		}
 	}
 	if explicit {
 		return
@@ -626,6 +636,31 @@ func TestC15(t *testing.T) {
 		v, s := runA(c)
 		accountA(c, s)
 		reportA(rt, c, v)
+	})
+	// (c) real tickers: schedules drawn first, then played side by side (each on its own server; they mostly sleep)
+	vcore.Check(t, 1, func(rt *rapid.T) {
+		n := vcore.N(12, 32)
+		cs := make([]CaseC, n)
+		for i := range cs {
+			cs[i] = genC(rt)
+		}
+		vs := make([]*vcore.Violation, n)
+		ss := make([]statsC, n)
+		var wg sync.WaitGroup
+		for i := range cs {
+			wg.Add(1)
+			go func(i int) {
+				defer wg.Done()
+				vs[i], ss[i] = checkC(cs[i])
+			}(i)
+		}
+		wg.Wait()
+		for i := range cs {
+			accountC(cs[i], ss[i])
+		}
+		for i := range cs {
+			vcore.Report(rt, vs[i], map[string]any{"c": cs[i]})
+		}
 	})
 	limit := gtp5gnl.MaxNetlinkUsageReportNum()
 	edge := []int{0, 1, limit - 1, limit, limit + 1, 2*limit - 1, 2 * limit, 2*limit + 1, 3 * limit}
